@@ -94,6 +94,8 @@ def expected_flows(b, spec):
         add(gk, -1, vn(b, gkey, grole, 'DEM_GOOD'), cur)
         if g['deposits']:
             add(gk, -1, vn(b, gkey, grole, 'INTDEP'), cur)
+        if g.get('bonds'):
+            add(gk, -1, vn(b, gkey, grole, 'INTBOND'), cur)
         gh = gold_holder(b, z)
         if gh is not None:
             add(gh, -1, vn(b, gh[0], gh[1], 'GOLDPURCHASES'), cur)
@@ -114,6 +116,8 @@ def expected_flows(b, spec):
             add(hh, -1, vn(b, ck, 'HH', 'T'), cur)
             if c['hh']['portfolio']:
                 add(hh, +1, vn(b, ck, 'HH', 'INTDEP'), cur)
+                if g.get('bonds') and c['hh'].get('bond_share'):
+                    add(hh, +1, vn(b, ck, 'HH', 'INTBOND'), cur)
             bus = (ck, 'BUS')
             add(bus, -1, vn(b, ck, 'BUS', 'DEM_' + lab), cur)
             if c['firm']['form'] == 'fixed':
@@ -280,7 +284,13 @@ def check_markets(J, b, spec):
                            lambda k, n=lab.GetVariableName('SUP_' + hh.FullCode): J.v(n, k),
                            lambda k, lsup=lsup: J.v(lsup, k), k_from=1, ctx={'market': lab.FullCode})
             # ---- portfolio: demands for the assets add up to F
-            if c['hh']['portfolio'] and g['money']:
+            if c['hh']['portfolio'] and g['money'] and g.get('bonds') and c['hh'].get('bond_share'):
+                J.count('three_asset_portfolio.judged')
+                J.equal_series('asset_demands_do_not_add_up_to_wealth', 'DEM_DEP + DEM_BOND + DEM_MON = F',
+                               lambda k, a=vn(b, ck, 'HH', 'DEM_DEP'), m=vn(b, ck, 'HH', 'DEM_MON'), bo=vn(b, ck, 'HH', 'DEM_BOND'):
+                               J.v(a, k) + J.v(m, k) + J.v(bo, k),
+                               lambda k, f=vn(b, ck, 'HH', 'F'): J.v(f, k), k_from=1, ctx={'household': hh.FullCode})
+            elif c['hh']['portfolio'] and g['money']:
                 J.equal_series('asset_demands_do_not_add_up_to_wealth', 'DEM_DEP + DEM_MON = F',
                                lambda k, a=vn(b, ck, 'HH', 'DEM_DEP'), m=vn(b, ck, 'HH', 'DEM_MON'):
                                J.v(a, k) + J.v(m, k),
@@ -335,6 +345,22 @@ def check_markets(J, b, spec):
             J.equal_series('interest_paid_not_interest_received', 'INTDEP',
                            lambda k, n=vn(b, gkey, grole, 'INTDEP'): J.v(n, k),
                            lambda k, inames=inames: sum((J.v(n, k) for n in inames), Fraction(0)), k_from=2,
+                           ctx={'zone': cur})
+        if g.get('bonds'):
+            bond = b.sectors[(gkey, 'BOND')]
+            bholders = [(c['key'], 'HH') for c in regions if c['hh']['portfolio'] and c['hh'].get('bond_share')]
+            bnames = [b.sectors[h].GetVariableName('DEM_BOND') for h in bholders]
+            J.equal_series('deposit_demand_not_sum_of_holders', 'BOND demand',
+                           lambda k, n=bond.GetVariableName('DEM_BOND'): J.v(n, k),
+                           lambda k, bnames=bnames: sum((J.v(n, k) for n in bnames), Fraction(0)), k_from=1,
+                           ctx={'zone': cur, 'holders': bnames})
+            J.equal_series('issuer_supply_not_market_demand', 'BOND supply',
+                           lambda k, n=vn(b, gkey, grole, 'SUP_BOND'): J.v(n, k),
+                           lambda k, n=bond.GetVariableName('DEM_BOND'): J.v(n, k), k_from=1, ctx={'zone': cur})
+            binames = [b.sectors[h].GetVariableName('INTBOND') for h in bholders]
+            J.equal_series('interest_paid_not_interest_received', 'INTBOND',
+                           lambda k, n=vn(b, gkey, grole, 'INTBOND'): J.v(n, k),
+                           lambda k, binames=binames: sum((J.v(n, k) for n in binames), Fraction(0)), k_from=2,
                            ctx={'zone': cur})
         for c in regions:
             if c.get('cap'):
